@@ -62,6 +62,9 @@ type Prop struct {
 	Spec         *Spec
 	Required     bool
 	Name         *absint.Atom // raw name atom (filled by Build)
+	ExtType      string       // goJSONSchema.type: a concrete Go type expression that replaces the generated type
+	ExtNillable  bool         // goJSONSchema.nillable
+	ExtImports   []string     // goJSONSchema.imports
 	ExtIdent     bool         // goJSONSchema.identifier override with a symbolic identifier
 	ExtAtom      *absint.Atom
 	Concrete     string // when set, the property name is this concrete text (the real identifier synthesiser runs)
@@ -401,6 +404,27 @@ func (b *builder) build(s *Spec, label string) gen.V {
 				id := g.M.NewPtr(absint.HoleStr(p.ExtAtom), "ext ident")
 				ext := g.Obj("pkg/schemas", "GoJSONSchemaExtension", map[string]gen.V{"Identifier": id})
 				// set on the property node
+				np := node.(absint.Ptr)
+				st := (*np.P).(absint.Struct)
+				tt := g.Type("pkg/schemas", "Type").Underlying().(*types.Struct)
+				for i := 0; i < tt.NumFields(); i++ {
+					if tt.Field(i).Name() == "GoJSONSchemaExtension" {
+						st.F[i] = ext
+					}
+				}
+			}
+			if p.ExtType != "" {
+				// goJSONSchema.type (+ imports, nillable) on the property node
+				tp := g.M.NewPtr(absint.Lit(p.ExtType), "ext type")
+				fields := map[string]gen.V{"Type": tp, "Nillable": p.ExtNillable}
+				if len(p.ExtImports) > 0 {
+					var ims []absint.Str
+					for _, im := range p.ExtImports {
+						ims = append(ims, absint.Lit(im))
+					}
+					fields["Imports"] = g.Strs(ims...)
+				}
+				ext := g.Obj("pkg/schemas", "GoJSONSchemaExtension", fields)
 				np := node.(absint.Ptr)
 				st := (*np.P).(absint.Struct)
 				tt := g.Type("pkg/schemas", "Type").Underlying().(*types.Struct)
